@@ -28,7 +28,7 @@ class C07(PoolScenario):
                    "the JVM peer is a Python stand-in that computes partials with the library itself"]
     expected_faults = ["alias_mutation", "restore"]
     expected_probes = ["iadd_nonempty_both", "iadd_disjoint_sparse", "iadd_reloaded_operand", "fill_b_after_iadd", "pure_op_on_both_replicas",
-                       "partial_child_filled_directly"]
+                       "partial_child_filled_directly", "partial_scaled_to_underflow"]
 
     def generate(self, rng, tier, profile):
         if profile == "sparksql":
@@ -43,7 +43,7 @@ class C07(PoolScenario):
         nmax = s.randint(5, self.max_steps[tier])
         for si in range(1, nmax + 1):
             op = s.wpick([("fillpair", 5), ("fillb", 7), ("iaddpair", 4), ("newb", 1.5), ("shipb", 1.2), ("zerob", 0.4),
-                          ("npb", 2), ("nppair", 1.5), ("pureboth", 3), ("fillchild", 1.5)])
+                          ("npb", 2), ("nppair", 1.5), ("pureboth", 3), ("fillchild", 1.5), ("mulb", 1.2)])
             actor = s.pick(["D", "E1", "E2"])
             if op == "fillpair" and amut:
                 steps.append({"op": "fill", "obj": 1, "mirror": 2, "rec": s.randrange(len(recs)),
@@ -87,6 +87,13 @@ class C07(PoolScenario):
                 wire = s.pick(["json", "jsonstr", "pickle", "file"])
                 bs[nh] = bs[b] and wire == "pickle"
                 steps.append({"op": "ship", "obj": b, "wire": wire, "out": nh, "actor": actor, "t": si})
+            elif op == "mulb":
+                # a partial that was scaled, possibly until its weights underflow to 0.0 while its extrema / keys stay
+                b = s.pick(sorted(bs))
+                nh += 1
+                bs[nh] = bs[b]
+                steps.append({"op": "mul2", "obj": b, "fs": s.pick([[0.5], [2.0], [1e-200, 1e-200], [1e-200, 1e-200], [5e-324, 0.5], [1e-300, 1e-300]]),
+                              "out": nh, "actor": actor, "t": si})
             elif op == "zerob":
                 b = s.pick(sorted(bs))
                 nh += 1
@@ -173,6 +180,20 @@ class C07(PoolScenario):
                                              {"iadd": observe.observe(o1.value), "add": observe.observe(o2.value)})
                     w.bump("probe_pure_op_on_both_replicas")
                 writes = set()
+            elif op == "mul2":
+                if not w.has(st["obj"]):
+                    continue
+
+                def scaled(x=w.heap[st["obj"]]):
+                    for f_ in st["fs"]:
+                        x = x * f_
+                    return x
+
+                o = call(scaled)
+                if o.ok:
+                    w.put(st["out"], o.value, k=w.meta[st["obj"]]["k"], via="mul", mut=w.meta[st["obj"]]["mut"])
+                    if len(st["fs"]) > 1:
+                        w.bump("probe_partial_scaled_to_underflow")
             elif op == "fillchild":
                 if not w.has(st["obj"]) or st["rec"] >= len(w.records):
                     continue
